@@ -51,6 +51,22 @@ def holder_lines(lines):
     return out
 
 
+def beyond_window(f):
+    """(copyright lines, licence expressions) read by the tool's extractor from the whole carrier when its last tag lies beyond the
+    first 4096 bytes and the file has no snippet marker; None otherwise."""
+    import reuse.extract as ex
+
+    data = open(annot.carrier_of(f), "rb").read()
+    last = max(data.rfind(b"SPDX-License-Identifier"), data.rfind(b"SPDX-FileCopyrightText"), data.rfind(b"SPDX-FileContributor"))
+    if last < 4000 or b"SPDX-SnippetBegin" in data:
+        return None
+    try:
+        info = ex.extract_reuse_info(data.decode("utf-8", "replace").replace("\r\n", "\n").replace("\r", "\n"))
+    except Exception:  # noqa
+        return None
+    return set(info.copyright_lines), {str(e) for e in info.spdx_expressions}
+
+
 def run_history(res, ctx, root, rng, hidx, max_steps, con):
     styles = ctx.state["styles"]
     t = rng.choice(ctx.state["types"])
@@ -58,11 +74,19 @@ def run_history(res, ctx, root, rng, hidx, max_steps, con):
     d.mkdir()
     f = d / t["fname"]
     rel = os.path.relpath(f, root)
-    start = rng.choice(["empty", "code", "foreign", "tool", "handwritten", "handwritten"])
+    start = rng.choice(["empty", "code", "foreign", "tool", "handwritten", "handwritten", "code-multibyte"])
     if start == "empty":
         f.write_text("")
     elif start == "code":
         f.write_text("K1 code\nK2 code\n")
+    elif start == "code-multibyte":
+        # valid UTF-8 whose multi-byte characters lie across the offsets where readers of fixed-size chunks cut (512, 1024, 4096, 8192)
+        body = bytearray(b"".join(b"K%04d = 'filler filler filler filler'\n" % i for i in range(260)))
+        for off in (511, 1023, 4095, 8191):
+            body[off:off + 2] = "é".encode("utf-8")
+        body[2047:2050] = "名".encode("utf-8")
+        assert b"\n" in bytes(body) and bytes(body).decode("utf-8")
+        f.write_bytes(bytes(body))
     elif start == "foreign":
         f.write_text("@@ SPDX-FileCopyrightText: 2001 Foreign Holder\n@@ SPDX-License-Identifier: ISC\n\nK1 code\n")
     elif start == "handwritten":
@@ -82,6 +106,16 @@ def run_history(res, ctx, root, rng, hidx, max_steps, con):
     else:
         f.write_text("K1 code\n")
         run_cli(["--no-multiprocessing", "--root", str(root), "annotate", "-c", "Earlier Holder", "-l", "CC0-1.0", "--year", "2015", str(f)], cwd=str(root))
+    if start in ("foreign", "handwritten", "tool") and rng.random() < 0.2:
+        # the same with a long body whose multi-byte characters lie across offsets 512, 1024, 4096, 8192 of the file
+        data = bytearray(f.read_bytes().replace(b"K1 code\n", b"".join(b"K%04d = 'filler filler filler filler'\n" % i for i in range(260))))
+        body_at = data.find(b"K0000")
+        for off in (511, 1023, 4095, 8191):
+            if body_at >= 0 and off > body_at and off + 2 < len(data) and b"\n" not in data[off - 1:off + 3]:
+                data[off:off + 2] = "é".encode("utf-8")
+        bytes(data).decode("utf-8")
+        f.write_bytes(bytes(data))
+        res.cell("start:multibyte-across-chunk-offsets")
     merge_history = rng.random() < 0.4
     dot_always = rng.random() < 0.12
     steps = rng.randint(2, max_steps)
@@ -99,6 +133,11 @@ def run_history(res, ctx, root, rng, hidx, max_steps, con):
     for s in range(steps):
         args = []
         holders = rng.sample(HOLDERS, rng.choice([0, 1, 1, 2]))
+        if rng.random() < 0.06:
+            # a crowd: the header grows beyond any fixed-size window (4 KiB and more) and later steps have to find all of it
+            base = rng.randint(0, 800)
+            holders = [f"Crowd Member {base + i:03d} <member{base + i:03d}@example.com>" for i in range(rng.randint(50, 95))]
+            res.cell("step:crowd")
         lics = rng.sample(LICS, rng.choice([0, 1, 1, 2]))
         contribs = rng.sample(CONTRIBS, rng.choice([0, 0, 1]))
         if not (holders or lics or contribs):
@@ -191,6 +230,17 @@ def run_history(res, ctx, root, rng, hidx, max_steps, con):
             res.violation("annotated-file-not-linted", f"step {s}: lint does not report the file", **rr.brief())
             return
         got_c, got_l = cur[rel]["cop"], cur[rel]["lic"]
+        whole = beyond_window(f)
+        if whole is not None:
+            # The header has outgrown the 4 KiB the linter looks at (C02: "tags are looked for in the first 4 KiB").  What lint
+            # reports is then short of what was written - the listed finding - and the history is judged on what the tool's
+            # reader finds in the whole carrier, so that the model stays exact.
+            res.cell("step:header-beyond-read-window")
+            if not (whole[0] <= got_c and whole[1] <= got_l):
+                res.violation("header-beyond-the-4-KiB-read-window", f"step {s}: annotate wrote a header of which lint reads {len(got_c)} of "
+                              f"{len(whole[0])} notices and {len(got_l)} of {len(whole[1])} licences (the block ends beyond byte 4096)",
+                              args=(args + opts)[:12], history=sig)
+            got_c, got_l = whole
         req_c = {notice.build(prefix or "spdx", ytext, h) for h in holders}
         for h in holders:
             if years:
